@@ -214,6 +214,12 @@ def established_flow_scripts(rng):
             out.append(Script(CFG, gens.handshake(CFG.key, s, d, 41100 + i, 111, [call + rep]), "established:rpc-same-segment"))
         out.append(Script(CFG, gens.handshake(CFG.key, s, d, 41200, 80, [gens.http_req(), http_resp, http_resp]), "established:http"))
         out.append(Script(CFG, gens.handshake(CFG.key, s, d, 41300, 3478, [gens.stun_req(), gens.stun_req(mtype=0x0101), gens.stun_req(mtype=0x0111)]), "established:stun"))
+        # a flow really bound to the STUN responder (over TCP only a magic-cookie request of >= 256 attribute bytes is
+        # identified), then every non-request class and a few non-Binding methods, with and without the cookie
+        bind = gens.stun_req(magic=True, attrs=gens.stun_attr(0x8022, b"S" * 252))
+        for j, types in enumerate(((0x0101, 0x0111, 0x0011), (0x0002, 0x0201, 0x0112), (0x0401, 0x3e01, 0x0113), (0x0011, 0x0801, 0x2001))):
+            later = [gens.stun_req(mtype=t, magic=(k + j) % 2 == 0, attrs=b"" if k else gens.stun_attr(3, b"\0\0\0\2")) for k, t in enumerate(types)]
+            out.append(Script(CFG, gens.handshake(CFG.key, s, d, 41310 + j, 3478, [bind] + later), "established:stun-bound"))
         out.append(Script(CFG, gens.handshake(CFG.key, s, d, 41400, 445, [c01.SMB1_NEG, bytes(s1)]), "established:smb"))
     return out
 
